@@ -54,6 +54,10 @@ type C11Item struct {
 	M    int    `json:"m"`
 	F    string `json:"f"` // in | out | sent
 	Read bool   `json:"read,omitempty"`
+	// Ext: the file got there by other means (copied from another client):
+	// its extension is spelled like this (".B2F", ".b2F"); the mailbox lists
+	// such files like its own.
+	Ext string `json:"ext,omitempty"`
 }
 
 // C11Op kinds: inbound (ProcessInbound of message M), addout (AddOut of message
@@ -91,6 +95,15 @@ type c11ctx struct {
 	newMsg   *built // inbound / addout: the message being stored
 	full     []byte // inbound: the complete file content a fault-free ProcessInbound leaves
 	pilot    []simfs.Op
+	// setupGone: a message the set-up stored is missing from the first listing
+	setupGone string
+}
+
+func orExt(e string) string {
+	if e == "" {
+		return mailbox.Ext
+	}
+	return e
 }
 
 func guard(f func()) (died any, panicked any, stack string) {
@@ -159,6 +172,7 @@ func (x *c11ctx) setup(sim *core.Sim) (ok bool) {
 				return
 			}
 			inbox, outbound := map[string]bool{}, map[string]bool{}
+			var placed [][3]string // folder, MID, extension of what the set-up stored
 			items := plan.State
 			if len(items) > 24 {
 				items = items[:24]
@@ -202,11 +216,32 @@ func (x *c11ctx) setup(sim *core.Sim) (ok bool) {
 						h.SetSent(b.def.MID, false)
 					}
 				}
+				placed = append(placed, [3]string{it.F, b.def.MID, it.Ext})
+			}
+			for _, it := range items {
+				b := pick(it.M)
+				if b == nil || !strings.EqualFold(it.Ext, mailbox.Ext) || it.Ext == mailbox.Ext {
+					continue
+				}
+				from := x.root + "/" + it.F + "/" + b.def.MID + mailbox.Ext
+				if _, serr := disk.Stat(from); serr == nil {
+					if disk.Rename(from, x.root+"/"+it.F+"/"+b.def.MID+it.Ext) == nil {
+						sim.Probe("stored-message-with-foreign-spelling-of-the-extension")
+					}
+				}
 			}
 			if plan.Pre != nil {
 				x.earlierCrash(sim, disk, pick(plan.Pre.M))
 			}
 			x.baseline, err = loadAll(x.root)
+			if err == nil {
+				// what the set-up stored is what a fresh start must list
+				for _, pl := range placed {
+					if _, ok := x.baseline[pl[0]][pl[1]]; !ok && x.setupGone == "" {
+						x.setupGone = fmt.Sprintf("message %s was stored in %s/ (extension %q); after a plain restart (new handler, Prepare) the folder does not list it", pl[1], pl[0], orExt(pl[2]))
+					}
+				}
+			}
 		})
 		if died != nil || pv != nil || err != nil {
 			sim.Logf("setup unusable: died=%v panic=%v err=%v", died, pv, err)
@@ -721,6 +756,9 @@ func execC11(t *testing.T, prop string, raw json.RawMessage, trace bool) core.Ou
 			sim.Logf("trivial scenario")
 			return
 		}
+		if x.setupGone != "" {
+			sim.Violate(prop, "stored-intact", "gone-after-restart-without-crash", "%s", x.setupGone)
+		}
 		sim.Logf("state in=%v out=%v sent=%v; op %s %s flag=%v", core.SortedKeys(x.baseline["in"]), core.SortedKeys(x.baseline["out"]), core.SortedKeys(x.baseline["sent"]), x.opName, x.target, x.plan.Op.B)
 		disk := x.base.Clone()
 		simfs.Use(disk)
@@ -884,6 +922,9 @@ func genC11(tier string, r *core.Rand, run int) C11Plan {
 			continue
 		}
 		plan.State = append(plan.State, C11Item{M: i, F: core.Choice(r, []string{"in", "in", "out", "sent"}), Read: r.Chance(0.4)})
+		if r.Chance(0.08) {
+			plan.State[len(plan.State)-1].Ext = core.Choice(r, []string{".B2F", ".B2f", ".b2F"})
+		}
 		if r.Chance(0.2) { // the same MID both received and queued
 			plan.State = append(plan.State, C11Item{M: i, F: core.Choice(r, []string{"in", "out", "sent"}), Read: r.Chance(0.4)})
 		}
